@@ -61,7 +61,9 @@ CHECKS = {
          "safe_active_fiber, safe_vm_opcodes, safe_class_lookup, debug_stress_gc, release with all of them, dev with all of them. Agreement with the "
          "specification on every build implies pairwise agreement; the repository's 546 scripts are also compared pairwise across the builds, as are "
          "the operations of Natives.tla with boundary operands (overflow-checked vs wrapping arithmetic: extreme ranges, shifts, indices) and the "
-         "programs whose correctness depends on when the collector runs (C01's edge probes under each build's own collection schedule).",
+         "programs whose correctness depends on when the collector runs (C01's edge probes under each build's own collection schedule). On every build "
+         "the control events (TraceVm.tla: both active-fiber representations equal at every event) and every executed instruction (TraceOps.tla: same "
+         "offsets and value-stack heights as the instruction table predicts) of the repository's scripts are trace-validated.",
     note=MACHINE_NOTE + " The other profile checks (C05-C09, C12-C18) already replay on dev and release; this check adds the feature matrix.",
     technique="TLA+ reference machine (TLC) + replay of the same expectations on every build configuration", design="4 C10"),
  "C13": dict(
@@ -198,10 +200,14 @@ CHECKS = {
          "tracking on every path, incl. break / continue). Inputs: every function of the 546 repository scripts and core.yl, programs sized by measurement to sit on / "
          "around every encoding limit (each must be rejected, or be accepted and print the known answer), and the programs generated "
          "for the other properties. The dynamic half of 'every access reads or writes the variable the source names' is the closure "
-         "scenario product (capturing scope x exit path x capture order) executed by the reference machine and replayed.",
-    note="The The "
-         "opcode effect table is transcribed from vm.rs. Jump-limit programs (64 KiB of code) go through Bytecode.tla in the thorough tier only.",
-    technique="TLA+ spec + TLC exhaustive path exploration of exported bytecode; limit programs with known answers",
+         "scenario product (capturing scope x exit path x capture order) executed by the reference machine and replayed. "
+         "TraceOps.tla binds the same instruction table (Opcodes.tla) to the interpreter itself: with the instruction hook on, every instruction the "
+         "real VM fetches while running the repository's scripts and a sample of every scenario family must be at an offset, in a chunk and with a "
+         "value-stack height that the table derives from the previous instruction of that frame (calls enter at offset 0 with arity slots, returns "
+         "only from Return, landings at the handler address and height PushExcHandler recorded), on the checked and the optimised build.",
+    note="The opcode effect table is transcribed from vm.rs and validated dynamically by TraceOps.tla (trace validation of every executed "
+         "instruction). Jump-limit programs (64 KiB of code) go through Bytecode.tla in the thorough tier only.",
+    technique="TLA+ spec + TLC exhaustive path exploration of exported bytecode; instruction-level trace validation (TraceOps.tla); limit programs with known answers",
     design="4 C04"),
  "C01": dict(
     level="model_checking",
